@@ -72,7 +72,7 @@ None == Step("none", "", {})
 
 FirstBody(s) ==
   LET idx == {i \in 1..Len(s.hs) :
-                 DoNoopBody(s, i) \cup DoStartBody(s, i) \cup DoStopBody(s, i) \cup DoKillBodyBasic(s, i)
+                 DoNoopBody(s, i) \cup DoRespond(s, i) \cup DoStartBody(s, i) \cup DoStopBody(s, i) \cup DoKillBodyBasic(s, i)
                  \cup DoKillSend(s, i) \cup DoTransBody(s, i) \cup DoTransCommit(s, i) \cup DoKBody(s, i) \cup DoKClose(s, i)
                  \cup (IF SuppressTerm THEN {} ELSE DoKTerm(s, i)) \cup DoKInt(s, i) \cup DoKKill9(s, i)
                  \cup DoKEnd(s, i) # {}}
@@ -86,20 +86,23 @@ FirstBody(s) ==
                [] DoKKill9(s, i) # {} -> Step("KSig", "KILL", DoKKill9(s, i))
                [] DoKEnd(s, i) # {} -> Step("KEnd", "", DoKEnd(s, i))
                [] DoTransBody(s, i) # {} -> Step(IF s.rpc = "up" THEN "Nop" ELSE "Settle", "", DoTransBody(s, i))
-               [] DoTransCommit(s, i) # {} -> Step("Body", h.r, DoTransCommit(s, i))
+               [] DoTransCommit(s, i) # {} -> Step("Nop", "", DoTransCommit(s, i))
+               [] DoRespond(s, i) # {} -> Step("Body", h.r, DoRespond(s, i))
                [] DoKillBodyBasic(s, i) # {} -> Step("Nop", "", DoKillBodyBasic(s, i))
                [] DoKillSend(s, i) # {} -> Step("Body", "Kill", DoKillSend(s, i))
-               [] OTHER -> Step("Body", h.r, DoNoopBody(s, i) \cup DoStartBody(s, i) \cup DoStopBody(s, i))
+               [] OTHER -> Step("Nop", "", DoNoopBody(s, i) \cup DoStartBody(s, i) \cup DoStopBody(s, i))
 
 Eager(s) ==
   LET b == FirstBody(s) IN
   IF b.a # "none" THEN b
+  ELSE IF DoReaperStart(s) # {} THEN Step("Nop", "", DoReaperStart(s))
   ELSE IF DoProc(s) # {} /\ ~NextHeld(s) THEN Step("Proc", "", DoProc(s))
   ELSE IF DoLDial(s) # {} THEN Step("LDial", "", DoLDial(s))
   ELSE IF DoLPoll(s) # {} THEN Step("LPoll", "", DoLPoll(s))
   ELSE IF DoWaitRet(s) # {} /\ ~SuppressReap THEN Step("Nop", "", DoWaitRet(s))
   ELSE IF DoReap(s) # {} THEN Step("Reap", "", DoReap(s))
-  ELSE IF DoLWait(s) # {} /\ ~SuppressReap THEN Step("LWait", "", DoLWait(s))
+  ELSE IF DoLWaitRet(s) # {} /\ ~SuppressReap THEN Step("Nop", "", DoLWaitRet(s))
+  ELSE IF DoLWait(s) # {} THEN Step("LWait", "", DoLWait(s))
   ELSE IF DoTimer(s) # {} /\ ~SuppressTimer THEN Step("Timer", "", DoTimer(s))
   ELSE None
 
